@@ -126,14 +126,19 @@ Print Assumptions C01_serial_text_refuted.
    environment and every scripted input: inside expr_guard the emitted C++ expression is well typed,
    evaluates without consuming readings, and yields the value Python computes *)
 Theorem C01_expr_preserve_partial : forall G rho s ins e c v,
-  env_rel G rho s -> call_free e = true ->
+  env_rel G rho s ->
   to_c G e = TOk c -> expr_guard G rho e = true -> peval rho e = Ok v ->
   exists w, crun (tc_types G) s c ins = COk (w, ins) /\ vrel v w.
 Proof. exact expr_preserve_partial. Qed.
 Print Assumptions C01_expr_preserve_partial.
 
 Example C01_expr_nonvacuous :
-  env_rel demo_G demo_rho demo_s /\ call_free demo_e = true /\ expr_guard demo_G demo_rho demo_e = true /\
+  env_rel demo_G demo_rho demo_s /\ expr_guard demo_G demo_rho demo_e = true /\
   peval demo_rho demo_e = Ok (VBool false) /\ exists c, to_c demo_G demo_e = TOk c.
 Proof. exact demo_nonvacuous. Qed.
 Print Assumptions C01_expr_nonvacuous.
+
+Example C01_expr_nonvacuous_calls :
+  expr_guard demo_G demo_rho demo_e2 = true /\ peval demo_rho demo_e2 = Ok (VInt 9) /\ exists c, to_c demo_G demo_e2 = TOk c.
+Proof. exact demo2_nonvacuous. Qed.
+Print Assumptions C01_expr_nonvacuous_calls.
